@@ -13,6 +13,16 @@ pub open spec fn go_keyword(s: Seq<char>) -> bool {
     || s == "fallthrough"@ || s == "if"@ || s == "range"@ || s == "type"@ || s == "continue"@ || s == "for"@ || s == "import"@
     || s == "return"@ || s == "var"@
 }
+// identifiers of Go's universe block (plus the imported package name `fmt`) that a goml program can choose as a name — goml's own type names
+// and `true` / `false` are keywords of goml and never reach go_ident as user names.  The emitted code and the runtime use these unqualified
+pub open spec fn go_predeclared(s: Seq<char>) -> bool {
+    s == "any"@ || s == "byte"@ || s == "comparable"@ || s == "complex64"@ || s == "complex128"@ || s == "error"@ || s == "int"@ || s == "rune"@
+    || s == "uint"@ || s == "uintptr"@ || s == "iota"@ || s == "nil"@ || s == "append"@ || s == "cap"@ || s == "clear"@ || s == "close"@
+    || s == "complex"@ || s == "copy"@ || s == "delete"@ || s == "imag"@ || s == "len"@ || s == "make"@ || s == "max"@ || s == "min"@
+    || s == "new"@ || s == "panic"@ || s == "print"@ || s == "println"@ || s == "real"@ || s == "recover"@ || s == "fmt"@
+}
+// a name the emitted Go must not define at package level
+pub open spec fn go_reserved(s: Seq<char>) -> bool { go_keyword(s) || go_predeclared(s) }
 // ---- std string / char functions (assumed semantics) ----
 #[verifier::external_body] pub fn str_eq(a: &str, b: &str) -> (r: bool) ensures r == (a@ == b@) { unimplemented!() }
 #[verifier::external_body] pub fn str_to_string(s: &str) -> (r: String) ensures r@ == s@ { unimplemented!() }                // s.to_string()
@@ -49,16 +59,22 @@ pub proof fn lemma_goml_prefix()
 {
     reveal_strlit("_goml_");
 }
-// no Go keyword starts with `_`
-pub proof fn lemma_underscore_no_keyword(s: Seq<char>)
+// no reserved name starts with `_`
+pub proof fn lemma_underscore_not_reserved(s: Seq<char>)
     requires s.len() > 0, s[0] == '_',
-    ensures !go_keyword(s),
+    ensures !go_reserved(s),
 {
     reveal_strlit("break"); reveal_strlit("default"); reveal_strlit("func"); reveal_strlit("interface"); reveal_strlit("select");
     reveal_strlit("case"); reveal_strlit("defer"); reveal_strlit("go"); reveal_strlit("map"); reveal_strlit("struct"); reveal_strlit("chan");
     reveal_strlit("else"); reveal_strlit("goto"); reveal_strlit("package"); reveal_strlit("switch"); reveal_strlit("const");
     reveal_strlit("fallthrough"); reveal_strlit("if"); reveal_strlit("range"); reveal_strlit("type"); reveal_strlit("continue");
     reveal_strlit("for"); reveal_strlit("import"); reveal_strlit("return"); reveal_strlit("var");
+    reveal_strlit("any"); reveal_strlit("byte"); reveal_strlit("comparable"); reveal_strlit("complex64"); reveal_strlit("complex128");
+    reveal_strlit("error"); reveal_strlit("int"); reveal_strlit("rune"); reveal_strlit("uint"); reveal_strlit("uintptr"); reveal_strlit("iota");
+    reveal_strlit("nil"); reveal_strlit("append"); reveal_strlit("cap"); reveal_strlit("clear"); reveal_strlit("close"); reveal_strlit("complex");
+    reveal_strlit("copy"); reveal_strlit("delete"); reveal_strlit("imag"); reveal_strlit("len"); reveal_strlit("make"); reveal_strlit("max");
+    reveal_strlit("min"); reveal_strlit("new"); reveal_strlit("panic"); reveal_strlit("print"); reveal_strlit("println"); reveal_strlit("real");
+    reveal_strlit("recover"); reveal_strlit("fmt");
 }
 // bytes vs characters: what is_valid_go_ident's byte tests say about the text
 pub proof fn lemma_bytes_legal(s: Seq<char>, bytes: Seq<u8>, q: bool)
